@@ -43,7 +43,7 @@ func (b *budgetDebugger) RecordThreadFinished(tid uint64)                       
 
 type evalOut struct {
 	val      interface{}
-	err      error // parse, validation or runtime error
+	err      error  // parse, validation or runtime error
 	stage    string // "parse", "validate", "eval"
 	panicKey string
 	panicMsg string
@@ -54,8 +54,8 @@ type evalOut struct {
 }
 
 type evalOpts struct {
-	setup  func(vs parser.Scope, erp *interpreter.ECALRuntimeProvider)
-	budget int
+	setup   func(vs parser.Scope, erp *interpreter.ECALRuntimeProvider)
+	budget  int
 	locator util.ECALImportLocator
 }
 
